@@ -93,8 +93,8 @@ def nonInterfering (rules : Rules) : Bool := nodupB (rules.map fun r => ruleTarg
 
 /-! ### request side -/
 
-def dropTrailingSlash (a : Str) : Str := if hasSuffix a [slash] then a.dropLast else a
-def dropLeadingSlash (b : Str) : Str := if hasPrefix b [slash] then b.drop 1 else b
+def dropTrailingSlash (a : Str) : Str := if endsWithSlash a then a.dropLast else a
+def dropLeadingSlash (b : Str) : Str := if startsWithSlash b then b.drop 1 else b
 
 /-- base and path joined by exactly one slash (an empty path adds nothing) -/
 def joinOneSlash (a b : Str) : Str :=
